@@ -281,6 +281,35 @@ let parse_cact toks : cact =
   | [ "E"; k ] -> CEnv (n_of_string k)
   | _ -> failwith "bad cell action"
 
+(* ---------- intrusive list (Deque/DequePtr.v) ---------- *)
+let parse_dop toks : dop =
+  match toks with
+  | [ "PUSH"; e ] -> DPush (n_of_string e)
+  | [ "POP" ] -> DPop
+  | [ "MTB"; h ] -> DMoveToBack (n_of_string h)
+  | [ "MFTB" ] -> DMoveFrontToBack
+  | [ "UNLINK"; h ] -> DUnlinkDrop (n_of_string h)
+  | [ "CONTAINS"; h ] -> DContains (n_of_string h)
+  | [ "PEEK" ] -> DPeekFront
+  | [ "NEXT"; h ] -> DNextOf (n_of_string h)
+  | [ "ITER" ] -> DIterNext
+  | _ -> failwith "bad deque op"
+
+let fmt_dout = function
+  | DONone -> "-"
+  | DOBool b -> if b then "1" else "0"
+  | DOElem e -> opt_n e
+  | DOHandle h -> opt_n h
+  | DOPair None -> "-"
+  | DOPair (Some (h, e)) -> string_of_n h ^ ":" ^ string_of_n e
+
+let fmt_pdeque (d : pdeque) : string =
+  match dq_walk d with
+  | Some l ->
+    Printf.sprintf "len=%s [%s] walk=ok" (string_of_n d.d_len)
+      (String.concat "," (List.map (fun (h, e) -> string_of_n h ^ ":" ^ string_of_n e) l))
+  | None -> Printf.sprintf "len=%s [] walk=dangling" (string_of_n d.d_len)
+
 let parse_hact toks : hact =
   match toks with
   | [ "ACQ"; t ] -> HAcquire (n_of_string t)
@@ -292,6 +321,7 @@ let parse_hact toks : hact =
 type mode =
   | MNone
   | MHk of hact list
+  | MDeque of pdeque
   | MCell of ((n, n) gmap) option * int      (* current map (None = already rejected), position *)
   | MConfig
   | MSync of scfg * srun
@@ -332,6 +362,7 @@ let process (ic : in_channel) =
             | Some "sketch" -> mode := MSketch sk_empty
             | Some "config" -> mode := MConfig
             | Some "hktrace" -> mode := MHk []
+            | Some "deque" -> mode := MDeque pd_empty
             | Some "celltrace" -> mode := MCell (Some cell_empty, 0)
             | Some "sync" ->
               let c = { sc_cap = opt_of_string (assoc_def "cap" kv "none");
@@ -353,6 +384,14 @@ let process (ic : in_channel) =
            (match !mode with
             | MNone -> failwith "operation before cfg"
             | MDead -> ()
+            | MDeque d ->
+              (match dq_step d (parse_dop toks) with
+               | Ok (d', out) ->
+                 Printf.printf "%d %s -> %s | %s\n" !idx line (fmt_dout out) (fmt_pdeque d');
+                 mode := MDeque d'
+               | Err e ->
+                 Printf.printf "%d %s -> ERR %s\n" !idx line (string_of_err e);
+                 mode := MDead)
             | MHk acts ->
               if toks = [ "END" ] then
                 let tr = List.rev acts in
